@@ -65,6 +65,15 @@ fn main() {
                 Err(e) => println!("err\t{}", format!("{e:#}").replace('\n', " ")),
             }
         }
+        "compile_exit" => {
+            // the build-script helper's own exit path: run_exit_on_error() must exit non-zero on failure
+            let mut c = Compile::file(&args[2]).destination(&args[4]);
+            if let Some(d) = derives(&args[3]) {
+                c = c.derives(d);
+            }
+            c.run_exit_on_error();
+            println!("ok");
+        }
         "compiledir" => {
             // Compile::directory over a directory tree: prints "ok" or "err\t<message>"
             match Compile::directory(&args[2]).run() {
